@@ -219,12 +219,31 @@ func durText(d time.Duration) string {
 
 var bytesText = map[uint64]string{5000: "5kb", 5120: "5KiB", 1000000: "1mb", 3: "3b", 2 << 30: "2GiB"}
 
+// numStyle selects how number literals are spelled (set by the caller before printing; one worker prints one
+// query at a time): 0 canonical, 1 leading zeros, 2 exponent, 3 trailing zeros. Every spelling denotes the same
+// decimal number.
+var numStyle int
+
 func numText(f float64) string {
-	switch f {
-	case 1000:
+	canon := strconv.FormatFloat(f, 'f', -1, 64)
+	switch numStyle {
+	case 1:
+		return "00" + canon // decimal, whatever it starts with: 0010 is ten, not eight
+	case 2:
+		if f == float64(int64(f)) && f >= 0 && f < 1e6 {
+			return strconv.FormatFloat(f*10, 'f', -1, 64) + "e-1"
+		}
+		return canon + "e0"
+	case 3:
+		if strings.Contains(canon, ".") {
+			return canon + "00"
+		}
+		return canon + ".0"
+	}
+	if f == 1000 {
 		return "1e3"
 	}
-	return strconv.FormatFloat(f, 'f', -1, 64)
+	return canon
 }
 
 func cmpOpText(op logql.BinOp) string {
